@@ -100,9 +100,11 @@ type FaultProfile struct {
 	Name    string
 	Blocks  int // 0: empty collection, 1: one block, 2: two blocks
 	Rows    int
-	Budgets int // number of byte budgets tried (0: all)
-	Repeat  int // extra failing attempts at random positions (leak drift)
-	Tail    int // commits made while each snapshot is between its last block and detaching the recorder
+	Budgets int  // number of byte budgets tried (0: all)
+	Repeat  int  // extra failing attempts at random positions (leak drift)
+	Tail    int  // commits made while each snapshot is between its last block and detaching the recorder
+	Big     bool // three blocks holding 1.5 MB each (24 rows with a 64 KB string): the compressing writer flushes to the
+	// destination while blocks are still being written, so a failing destination surfaces INSIDE a block, not at the final flush
 }
 
 func FaultProfileFor(name string, seed int64) FaultProfile {
@@ -110,6 +112,9 @@ func FaultProfileFor(name string, seed int64) FaultProfile {
 	p := FaultProfile{Name: name, Blocks: r.Intn(3), Rows: 3 + r.Intn(4), Budgets: 12, Repeat: 20, Tail: r.Intn(3)}
 	if name == "c14t" {
 		p.Budgets, p.Repeat = 0, 300
+	}
+	if name == "c14big" {
+		p.Big, p.Blocks, p.Budgets, p.Repeat, p.Tail = true, 3, 10, 6, r.Intn(2)
 	}
 	return p
 }
@@ -135,10 +140,29 @@ func RunFault(seed int64, p FaultProfile) (out []Ev) {
 		P.CreateColumn(d)
 	}
 	P.CreateIndex(IdxDesc{"big", "a", "ge", 5})
+	var perBlock [][]uint32 // big: the tracked rows of each block
+	if p.Big {
+		big := ColDesc{"x", "tok", "", "string"}
+		P.CreateColumn(big)
+		P.BulkInsert(3 * 16384) // completely full: tracked rows take the offsets freed just before
+		for b := 0; b < 3; b++ {
+			lo := uint32(b)*16384 + 100
+			P.BulkDelete(lo, lo+23)
+			var rows []uint32
+			for i := 0; i < 24; i++ {
+				P.Txn("m", func(x *Tx) error {
+					o, _ := x.Insert([]W{{"a", "put", rnd.Intn(10)}, {"x", "put", "len65535"}}, false)
+					rows = append(rows, o)
+					return nil
+				})
+			}
+			perBlock = append(perBlock, rows)
+		}
+	}
 	if p.Blocks == 2 {
 		P.BulkInsert(16384 - 2)
 	}
-	if p.Blocks > 0 {
+	if p.Blocks > 0 && !p.Big {
 		for i := 0; i < p.Rows; i++ {
 			P.Txn("m", func(x *Tx) error {
 				x.Insert([]W{{"a", "put", rnd.Intn(10)}, {"s", "put", []int{rnd.Intn(3)}}}, false)
@@ -172,6 +196,25 @@ func RunFault(seed int64, p FaultProfile) (out []Ev) {
 	attempt := func(fw *FaultyWriter, i int) {
 		err := P.Snapshot("m", fmt.Sprintf("bad%d", i), fw)
 		_ = err
+		if p.Big {
+			// every block still takes commits (a latch left behind by the failed snapshot would block its block only)
+			for _, rows := range perBlock {
+				o := rows[rnd.Intn(len(rows))]
+				done := make(chan struct{})
+				go func() {
+					w.T.Register("m")
+					defer w.T.Unregister()
+					P.Txn("m", func(x *Tx) error { x.At(o, []W{{"a", "mrg", 1}}, false, 0); return nil })
+					close(done)
+				}()
+				select {
+				case <-done:
+				case <-time.After(20 * time.Second):
+					w.T.Log(Ev{"e": "hang", "t": "m", "after": fmt.Sprintf("a commit to block %d after a failed snapshot", o>>14)})
+					panic("harness: giving up after a hang")
+				}
+			}
+		}
 		// the collection keeps working: a commit, a healthy snapshot that restores correctly
 		P.Txn("m", func(x *Tx) error {
 			if len(live) > 0 && rnd.Intn(2) == 0 {
